@@ -236,7 +236,18 @@ def check_history(c):
     cipher = guard(CI.make, conf)
     mo = guard(build_mode, c, cipher)
     last_ct = None
+    c = dict(c)
     for i, (what, M) in enumerate(c["ops"]):
+        if what == "setup":
+            # re-configure the counter of an existing CTR object through the public DefaultCounter.setup(); later
+            # operations must behave like a fresh object configured with the new counter block
+            if c["mode"] == "CTR":
+                B = CI.BLOCK[conf["cipher"]]
+                iv = (M * (B // max(1, len(M)) + 1))[:B] if M else bytes(B)
+                guard(mo.counter.setup, iv[:B // 2], iv[B // 2:])
+                c["iv"] = iv
+                last_ct = None
+            continue
         if what == "enc":
             got = guard(mo.enc, M)
             exp = one_op(dict(c, M=M), "enc", M)
@@ -274,7 +285,7 @@ def history_strategy(tier):
             return c
         return st.builds(build, st.sampled_from(["ECB", "CBC", "CTR", "CTS_ECB", "CTS_CBC"]),
                          st.lists(gen.blob_of(gen.length(B, 2)), min_size=2, max_size=4), gen.blob(B),
-                         st.lists(st.sampled_from(["enc", "enc", "dec", "dec-last"]), min_size=4, max_size=4))
+                         st.lists(st.sampled_from(["enc", "enc", "dec", "dec-last", "setup"]), min_size=4, max_size=4))
     return CI.config_strategy(["des", "aes128", "tdea", "tf256"]).flatmap(for_conf)
 
 
@@ -291,7 +302,7 @@ FACETS = [
           rule="all 9 cipher configurations, all modes and paddings, lengths k*B + boundary residue, counter halves near wrap-around"),
     Facet("call-histories", check_history, strategy=history_strategy, budget={"quick": 500, "thorough": 15000},
           shards={"quick": 16, "thorough": 32}, nontrivial=lambda c: len(c["ops"]) >= 2,
-          classify=lambda c: (c["mode"], "".join(k[0] if k != "dec-last" else "l" for k, _ in c["ops"])),
-          rule="2..4 operations on ONE mode object: enc (== a fresh object's), dec of the ciphertext just produced, dec of a ciphertext that a fresh object produced for a different message"),
+          classify=lambda c: (c["mode"], "".join({"enc": "e", "dec": "d", "dec-last": "l", "setup": "s"}[k] for k, _ in c["ops"])),
+          rule="2..4 operations on ONE mode object: enc (== a fresh object's), dec of the ciphertext just produced, dec of a ciphertext that a fresh object produced for a different message, and (CTR) re-configuring the counter with DefaultCounter.setup()"),
 ]
 WEIGHT = {"length-sweep": 8, "random": 4}
